@@ -55,6 +55,19 @@ type loopInfo struct {
 	overRc bool // ranges over Conn.recipients
 }
 
+// overRcShape: the loop is a go/ssa rangeindex loop over the slice described by what.
+func (li *loopInfo) overRcShape(what string) bool {
+	if len(li.header.Instrs) == 0 || li.header.Comment != "rangeindex.loop" {
+		return false
+	}
+	iff, ok := li.header.Instrs[len(li.header.Instrs)-1].(*ssa.If)
+	if !ok {
+		return false
+	}
+	bo, ok := iff.Cond.(*ssa.BinOp)
+	return ok && bo.Op.String() == "<" && describe(bo.Y) == "builtin:len("+what+")" && strings.HasPrefix(describe(bo.X), "(loopvar:rangeindex")
+}
+
 func findLoops(f *ssa.Function) []*loopInfo {
 	var out []*loopInfo
 	for _, h := range f.Blocks {
@@ -256,6 +269,11 @@ func enhancedArg(v ssa.Value) (kind string, class int64) {
 func runC04(c *Ctx) {
 	R := c.R
 	_, s := c.Std()
+
+	// "one reply per command" presupposes that message octets are never parsed as commands: the
+	// framing rules of C02 (end-of-data table, drains) are necessary conditions of this property too
+	ruleDotTable(c)
+	ruleDrains(c)
 
 	// ---------- R-reply-count ----------
 	R.Rule("R-reply-count", "E2 path counting with callee summaries", "exactly one final reply on every entry-to-exit path of the dispatcher and of each command handler (intermediate 354/334 excluded; I/O-failure paths exempt)", 9)
